@@ -158,7 +158,10 @@ def isScalar (o : PyObj) : Bool :=
     (the placeholder when `str` fails) -/
 def render (o : PyObj) : String :=
   if isIterator o then "Iterator of type: " ++ o.tyRepr
-  else if isContainer o then "Size: " ++ toString (match o.len with | .ok n => n | .raises _ => 0)
+  else if isContainer o then
+    match o.len with
+    | .ok n => "Size: " ++ toString n
+    | .raises _ => o.str.getD o.placeholder      -- the count cannot be taken: as any other value
   else o.str.getD o.placeholder
 
 /-- a child as shown: displayed name, original name when it differs, the object -/
@@ -184,14 +187,20 @@ def got {α : Type} (p : Probe α) (d : α) : α :=
   | .raises _ => d
 
 /-- children by kind: dict items by key, elements of list/tuple/set/frozenset and exception args by index (at most
-    `maxColl`), attributes of other objects by name; none for scalars -/
+    `maxColl`), attributes of other objects by name; none for scalars, none when the object cannot be inspected -/
 def kids (L : Limits) (o : PyObj) : List Kid :=
   if isScalar o then []
   else if o.isDictExact then o.dictItems.map (fun kv => ⟨kv.1.text, none, kv.2⟩)
   else if isSeq o then indexed ((got o.seq []).take L.maxColl) 0
-  else if got o.isExc false then indexed ((got o.excArgs []).take L.maxColl) 0
-  else if got o.hasDict false then (got o.attrs []).map (attrKid o.tyName)
-  else []
+  else
+    match o.isExc with
+    | .raises _ => []            -- an object that cannot be inspected is shown without children
+    | .ok true => indexed ((got o.excArgs []).take L.maxColl) 0
+    | .ok false =>
+      match o.hasDict with
+      | .raises _ => []
+      | .ok true => (got o.attrs []).map (attrKid o.tyName)
+      | .ok false => []
 
 /-- the children an entry recorded at work-list depth `depth` lists: none at the depth limit -/
 def kidsAt (L : Limits) (o : PyObj) (depth : Nat) : List Kid :=
